@@ -67,6 +67,9 @@ impl FormalArgs {
         }
         let positional = args.take_positional(self.0.len());
         for ((name, _default), value) in self.0.iter().zip(&positional) {
+            if args.named.contains_key(name) {
+                return Err(ArgsError::Duplicate(name.clone()));
+            }
             argscope.define(name.clone(), value.clone())?;
         }
         if self.0.len() > positional.len() {
@@ -130,6 +133,8 @@ pub enum ArgsError {
     Missing(Name),
     /// Got unexpected named argumet
     Unexpected(Name),
+    /// Got an argument both by position and by name.
+    Duplicate(Name),
     /// An error evaluating one of the arguments.
     Eval(Box<Error>),
 }
@@ -169,6 +174,10 @@ impl fmt::Display for ArgsError {
             Self::Unexpected(name) => {
                 write!(out, "No parameter named ${name}.")
             }
+            Self::Duplicate(name) => write!(
+                out,
+                "Argument ${name} was passed both by position and by name."
+            ),
             Self::Eval(e) => e.fmt(out),
         }
     }
